@@ -284,7 +284,11 @@ func c15E2E(r *Rng, id string) Case {
 			}
 		case kind == "dbtype":
 			// all and only the columns of that type with the matching nullability
-			match := func(c PCol) bool { return c.Type == target.Type && (c.NotNull || c.Array) == (target.NotNull || target.Array) }
+			// a db_type override names the ELEMENT type: it applies to scalars and to arrays of that type alike
+			elem := func(t string) string { return strings.TrimSuffix(t, "[]") }
+			match := func(c PCol) bool {
+				return elem(c.Type) == elem(target.Type) && (c.NotNull || c.Array) == (target.NotNull || target.Array)
+			}
 			for _, tb := range []PTable{t, u} {
 				for _, c := range tb.Cols {
 					got := modelFieldType(sw, settingsWith, tb, c)
